@@ -11,9 +11,18 @@
    the real Grad, Jac (every chunk size None,1,2,3,4), Composition of two Jac, Init, Select,
    Diagonalize, Stack, Aggregate are applied to real tensors under the shapes of the spec's
    ShapeMenu (0-d .. 4-d, size-1 dims; up to 24 combinations per scenario in the thorough tier), float64 and
-   float32, shuffled dictionary insertion orders; outputs compared with EQUALITY.
+   float32, shuffled dictionary insertion orders; outputs compared with EQUALITY; the ELEMENT TYPE of
+   every value of every result must be the one the inputs determine.  Every key collection handed to a
+   constructor is PRESENTED in a form drawn (seeded) from the spec's ArgForms table (list, tuple, set,
+   dict view, iterator, generator / map / filter).  PRECISION presentation (float64, every scenario):
+   the integers v of the scenario are realised as v + 2^-29 K (K = second integer input exported by
+   the spec); by linearity (ValuesLinear / Linear) the result must EQUAL expected + 2^-29 expectedK
+   (exact in float64, not representable in float32); plus leaf values / weights of that form against
+   torch.autograd.grad on a twin graph / the explicit product w^T J at 1e-12 relative.
 3. C->S: random larger programs / dictionaries are run through the real transforms, logged, and
-   validated by TLC (TraceTransformValues.tla) which recomputes the expected values.
+   validated by TLC (TraceTransformValues.tla) which recomputes the expected values, compares the
+   logged element types, and - in the float64 precision episodes (input v + 2^-29 K) - checks the two
+   integer parts of every result value separately.
 """
 
 from __future__ import annotations
@@ -37,13 +46,15 @@ DT = {"float64": torch.float64, "float32": torch.float32}
 def validate_episodes(ctx: Ctx, eps: list[dict]) -> None:
     ok_eps = []
     for e in eps:
-        desc = {k: e[k] for k in ("kind", "prog", "outs", "ins", "m", "chunk", "sizes", "order", "members", "w") if k in e}
+        desc = {k: e[k] for k in ("kind", "prog", "outs", "ins", "m", "chunk", "sizes", "order", "members", "w", "dt", "prec") if k in e}
         key = "trace:" + json.dumps(desc, sort_keys=True)
         if "raised" in e:
             ctx.violation(key + ":raised", f"{e['kind']} transform raised on a valid random input: {e['raised']} ({desc}, {e['meta']})",
                           {"kind": "trace", "episode": e})
-        elif e.get("nonint") or _has_none(e.get("result")):
-            ctx.violation(key + ":nonint", f"{e['kind']} transform returned non-integral values on integer input ({desc})",
+        elif e.get("nonint") or _has_none(e.get("result")) or _has_none(e.get("resultK")):
+            ctx.violation(key + ":nonint", f"{e['kind']} transform returned " +
+                          ("values that are not of the form v + k 2^-29 on a float64 input of that form" if e.get("prec") else
+                           "non-integral values on integer input") + f" ({desc}, {e['meta']})",
                           {"kind": "trace", "episode": e})
         else:
             ok_eps.append({k: v for k, v in e.items() if k != "meta"})
@@ -65,10 +76,12 @@ def validate_episodes(ctx: Ctx, eps: list[dict]) -> None:
         e = by[rj["ep"]]
         if rj["clause"] == "malformed_program_in_log":
             raise MachineryError(f"driver logged a malformed program: {e['prog']}")
-        desc = {k: e[k] for k in ("kind", "prog", "outs", "ins", "m", "chunk", "sizes", "order", "members", "w") if k in e}
+        desc = {k: e[k] for k in ("kind", "prog", "outs", "ins", "m", "chunk", "sizes", "order", "members", "w", "dt", "prec") if k in e}
         ctx.violation("trace:" + json.dumps(desc, sort_keys=True) + ":" + rj["clause"],
                       f"recorded application of the real {e['kind']} transform rejected by TransformValues.tla ({rj['clause']}): "
-                      f"{desc} input={e.get('ct', e.get('input'))} result={e.get('result')} shapes={e['meta']}",
+                      f"{desc} input={e.get('ct', e.get('input'))} result={e.get('result')} result element types={e.get('rdt')} "
+                      + (f"2^-29 parts: input {e.get('ctK') or e.get('inputK') or e.get('membersK')} result {e.get('resultK')} " if e.get("prec") else "")
+                      + f"shapes={e['meta']}",
                       {"kind": "trace", "episode": e})
     ctx.traces += summ["accepted"] + summ["rejected"]
     ctx.extra.setdefault("trace_summaries", []).append(summ)
@@ -92,7 +105,12 @@ def run(ctx: Ctx, replay: str | None) -> None:
     ctx.assumptions += [
         "torch.autograd is the environment: its model (Autograd.tla) is cross-checked by TLC (reverse mode = cotangent . forward-mode "
         "Jacobian on every program)",
-        "integers below 2^20 are exact in float32/float64, comparisons are equalities",
+        "integers below 2^20 are exact in float32/float64, comparisons are equalities; multiples of 2^-29 below 2^20 are exact in "
+        "float64 (49 bits), so the precision presentation is compared with equality too; with perturbed leaf values / weights "
+        "(products of two such numbers are not exact) the allowance is 1e-12 relative to max(1, |reference|) - float64 rounding of "
+        "<= 20 operations is below 1e-14, a float32 round trip is about 1e-8",
+        "Aggregate(key_order=<one-shot iterable>) raises ValueError on the unchanged tree (key_order is traversed three times): "
+        "key_order is presented as list / tuple / dict view only; member lists of Stack are Sequences (list / tuple)",
         "an EMPTY batch of cotangents (0 rows) is outside the universe (not reachable through the API); it is executed and counted only",
         "the order in which Aggregate concatenates the per-key matrices is not fixed by the statement (any key order accepted, DRIFT noted)",
     ]
@@ -103,12 +121,13 @@ def run(ctx: Ctx, replay: str | None) -> None:
     if replay:
         rec = json.load(open(replay))
         p = rec["payload"]
+        H.set_forms(p.get("forms"))
         if p["kind"] == "call":
             r = H.replay_call((p["scenario"], p["menu"], p["seed"], p["idx"], p["n_shapes"], [DT[d] for d in p["dtypes"]]))
         elif p["kind"] == "value":
             r = H.replay_value((p["scenario"], p["menu"], p["seed"], p["idx"], p["limit"], [DT[d] for d in p["dtypes"]]))
         else:
-            validate_episodes(ctx, [p["episode"] | {"ep": 1}])
+            validate_episodes(ctx, [{"dt": "float64", "rdt": [], "prec": 0} | p["episode"] | {"ep": 1}])
             return
         for f in r["fails"]:
             ctx.violation(rec["key"], f, p)
@@ -130,8 +149,15 @@ def run(ctx: Ctx, replay: str | None) -> None:
     calls = res.prints.get("CALL", [])
     vals = res.prints.get("VAL", [])
     menu = (res.prints.get("MENU") or [{}])[0].get("menu")
+    forms = (res.prints.get("MENU") or [{}])[0].get("forms")
     if not menu or len(calls) < 500 or len(vals) < 300:
         raise MachineryError(f"export too small: {len(calls)} calls, {len(vals)} value scenarios, menu={bool(menu)}")
+    H.set_forms(forms)
+    if len(H.FORMS) != 10 or sum(1 for f in H.FORMS.values() if "gen" in f and "iter" in f) != 8:
+        raise MachineryError(f"vacuous table of argument presentations: {forms}")
+    if any(v["kind"] != "init" and not (v.get("inputK") or v.get("membersK")) for v in vals):
+        raise MachineryError("value scenarios exported without the K pattern of the precision presentation")
+    ctx.extra["argument_presentations"] = {f"{o}.{a}": f for (o, a), f in H.FORMS.items()}
     kinds = {v["kind"] for v in vals}
     if kinds != {"init", "select", "diag", "stack", "agg"} or not any(c["cuts"] for c in calls) or \
             not any(c["unreachable"] for c in calls) or not any(len(c["outs"]) > 1 for c in calls):
@@ -155,7 +181,7 @@ def run(ctx: Ctx, replay: str | None) -> None:
         for f in r["fails"]:
             ctx.violation("call:" + H.call_key(c), f"program {c['prog']}: {f}",
                           {"kind": "call", "scenario": c, "menu": menu, "seed": ctx.seed, "idx": i, "n_shapes": n_shapes,
-                           "dtypes": [str(d)[6:] for d in dts(i)]})
+                           "dtypes": [str(d)[6:] for d in dts(i)], "forms": forms})
     ctx.count("jac_batch0_raises", b0)
     ctx.count("jac_batch0_executed", len(calls))
     if b0:
@@ -174,7 +200,7 @@ def run(ctx: Ctx, replay: str | None) -> None:
             ctx.report_drift("TransformValues", d)
         for f in r["fails"]:
             ctx.violation("value:" + H.value_key(v), f, {"kind": "value", "scenario": v, "menu": menu, "seed": ctx.seed, "idx": i,
-                                                          "limit": limit, "dtypes": [str(d)[6:] for d in dts(i)]})
+                                                          "limit": limit, "dtypes": [str(d)[6:] for d in dts(i)], "forms": forms})
     for kind in ("diag", "agg", "stack"):
         v = next(x for x in vals if x["kind"] == kind and len(x["sizes"]) >= 2)
         ctx.sample({"value_scenario": v})
